@@ -172,6 +172,9 @@ type Sim struct {
 // cur is the simulation that is active in this process (one at a time).
 var cur *Sim
 
+// Heartbeat counts scheduler steps of the whole process (read by the worker's watchdog).
+var Heartbeat atomic.Uint64
+
 // Active returns the running simulation or nil (passthrough).
 //
 //go:norace
@@ -435,6 +438,7 @@ func (s *Sim) loop() {
 		s.quiesceGrace = false
 		s.last = t
 		s.steps++
+		Heartbeat.Add(1)
 		t.steps++
 		s.mix(uint64(t.ID))
 		s.mixs(t.site)
